@@ -210,6 +210,9 @@ func TestVerif_C08(t *testing.T) {
 				v = " café тест 8bit"
 			case 5:
 				v = "no-leading-space"
+			case 6:
+				// a field line at the limit: name, colon and value make 996..998 octets
+				v = " " + strings.Repeat("z", []int{996, 997, 998}[r.intn(3)]-len(k)-2)
 			default:
 				v = fmt.Sprintf(" value %d", r.intn(1000))
 			}
@@ -237,7 +240,16 @@ func TestVerif_C08(t *testing.T) {
 			case 3:
 				body.WriteString("\r\n")
 			case 4:
-				body.WriteString(strings.Repeat("x", 200+r.intn(700)) + "\r\n")
+				if r.chance(40) { // at the RFC 5321 text-line limit: 998 octets before CRLF
+					n := []int{996, 997, 998}[r.intn(3)]
+					ln := strings.Repeat("y", n)
+					if r.chance(30) {
+						ln = "." + ln[1:]
+					}
+					body.WriteString(ln + "\r\n")
+				} else {
+					body.WriteString(strings.Repeat("x", 200+r.intn(700)) + "\r\n")
+				}
 			case 5:
 				body.WriteString("café 8bit line\r\n")
 			default:
